@@ -384,8 +384,11 @@ Proof.
              | (if ?c then _ else _) = _ => destruct c
              end; inversion H; subst; auto; right; eexists; split; try reflexivity; simpl; lia.
     + destruct (lookup_mono (mono T) f) as [s|]; [|inversion H; auto].
-      destruct (first_bad_arg (m_arg s) shs tys 0) as [j|] eqn:FB.
-      * inversion H; subst. apply first_bad_lt in FB. right. exists j. split; [reflexivity|lia].
+      destruct (first_bad_arg (m_arg s) (limit (m_checked s) shs) (limit (m_checked s) tys) 0) as [j|] eqn:FB.
+      * inversion H; subst. apply first_bad_lt in FB. right. exists j. split; [reflexivity|].
+        assert (length (limit (m_checked s) shs) <= length shs)
+          by (unfold limit; destruct (m_checked s); [apply firstn_le_length|lia]).
+        lia.
       * destruct (Nat.ltb (length tys) (m_min s)); [inversion H; auto|].
         destruct (m_max s) as [mx|]; [|discriminate].
         destruct (Nat.ltb mx (length tys)); [inversion H; auto|discriminate].
